@@ -120,6 +120,7 @@ class Batch:
             finally:
                 timer.cancel()
             last_begin = None
+            last_done = None
             done = False
             tail = []
             for line in out.splitlines():
@@ -140,6 +141,7 @@ class Batch:
                             self.hashes.add(f[3])
                             if f[4] == "1":
                                 self.nontrivial_hashes.add(f[3])
+                    last_done = int(f[1])
                     last_begin = None
                 elif t == "V":
                     head, _, facts = line.partition(" | ")
@@ -150,6 +152,7 @@ class Batch:
                     with self.lock:
                         self.runs += 1
                         self.violations.append(v)
+                    last_done = int(f[1])
                     last_begin = None
                 elif t == "S":
                     f = line.split()
@@ -166,6 +169,10 @@ class Batch:
             if done:
                 return
             # the worker died inside run last_begin
+            if last_begin is None and last_done is not None and p.returncode == 0:
+                # the worker retired after a run it cannot continue from (parked threads): fresh process
+                cur = last_done + 1
+                continue
             if last_begin is None:
                 # died outside any run (startup?): harness problem
                 with self.lock:
@@ -255,22 +262,47 @@ def same_failure(res, v):
     return res["cls"] == v.cls
 
 
+def _split_plan(lines):
+    """-> (head lines, [(task, op line)]); 'task n' lines become an attribute of the ops that follow"""
+    head, ops, task = [], [], 0
+    for l in lines:
+        if l.startswith("op "):
+            ops.append((task, l))
+        elif l.startswith("task "):
+            task = int(l.split()[1])
+        else:
+            head.append(l)
+    return head, ops
+
+
+def _join_plan(head, ops):
+    out, task = list(head), 0
+    sched = [l for l in out if l.startswith("sched")]
+    out = [l for l in out if not l.startswith("sched")]
+    for t, l in ops:
+        if t != task:
+            out.append("task %d" % t)
+            task = t
+        out.append(l)
+    return out + sched
+
+
 def minimise(binp, lines, v, budget=300, time_limit=60):
-    """ddmin over op lines (cfg lines are kept), then drop fault attachments. Keeps the same violation class."""
+    """ddmin over ops (cfg lines are kept, task attribution of every op is kept), then drop fault attachments.
+    Keeps the same violation class."""
     t0 = time.time()
-    head = [l for l in lines if not l.startswith("op ")]
-    ops = [l for l in lines if l.startswith("op ")]
+    head, ops = _split_plan(lines)
     attempts = [0]
 
     def fails(cand):
         if attempts[0] >= budget or time.time() - t0 > time_limit:
             return False
         attempts[0] += 1
-        return same_failure(exec_plan(binp, head + cand), v)
+        return same_failure(exec_plan(binp, _join_plan(head, cand)), v)
 
     # cut the tail after the failing step first (cheap)
     m = re.search(r"step=(-?\d+)", v.facts or "")
-    if m and v.kind == "oracle":
+    if m and v.kind == "oracle" and len(set(t for t, _ in ops)) <= 1:
         st = int(m.group(1))
         if 0 <= st < len(ops) - 1 and fails(ops[:st + 1]):
             ops = ops[:st + 1]
@@ -293,17 +325,17 @@ def minimise(binp, lines, v, budget=300, time_limit=60):
     i = 0
     while i < len(ops) and attempts[0] < budget:
         cand = ops[:i] + ops[i + 1:]
-        if fails(cand):
+        if cand and fails(cand):
             ops = cand
         else:
             i += 1
-    for i, l in enumerate(list(ops)):
+    for i, (t, l) in enumerate(list(ops)):
         if " !" in l:
             cand = list(ops)
-            cand[i] = re.sub(r" !\d+", "", l)
+            cand[i] = (t, re.sub(r" !\d+", "", l))
             if fails(cand):
                 ops = cand
-    return head + ops, attempts[0]
+    return _join_plan(head, ops), attempts[0]
 
 
 def sut_of(lines):
